@@ -22,6 +22,17 @@ def _env():
 
 
 def build_replay_tool():
+    global REPLAY_DIR
+    repo = os.environ.get("VERIF_REPO", "/repo")
+    if repo != "/repo":
+        # mutation experiments: private copy of the replay crate pointing at the scratch worktree
+        alt = os.path.join(VERIF, "work", "replay" + os.environ.get("VERIF_WORKTAG", ""))
+        subprocess.run(["rsync", "-a", "--exclude", "target", os.path.join(VERIF, "replay") + "/", alt + "/"], check=True)
+        ct = open(os.path.join(alt, "Cargo.toml")).read().replace('path = "/repo"', 'path = "%s"' % repo)
+        open(os.path.join(alt, "Cargo.toml"), "w").write(ct)
+        mr = open(os.path.join(alt, "src", "main.rs")).read().replace('#[path = "../../harness/src/reference.rs"]', '#[path = "%s/harness/src/reference.rs"]' % VERIF)
+        open(os.path.join(alt, "src", "main.rs"), "w").write(mr)
+        REPLAY_DIR = alt
     lock = os.path.join(REPLAY_DIR, "Cargo.lock")
     if not os.path.exists(lock):
         import shutil
@@ -115,6 +126,27 @@ def shape_candidates(spec):
     run on the real build and only a reproducing one is reported."""
     sh = spec.shape
     ent = sh.get("entry")
+    def num(v):
+        if isinstance(v, int):
+            return v
+        v = str(v)
+        if v.startswith("usize::MAX-"):
+            return UMAX - int(v.split("-")[1])
+        return UMAX if "MAX" in v else 0
+    if str(sh.get("contract", "")).startswith("update_signature"):
+        ol, nl = sh.get("old_len", 1), sh.get("new_len", 1)
+        c = []
+        for (o, w) in (([1] * ol, [2] * nl), ([1] * ol, ([1] * nl) if nl else []), ([3] * ol, [3] * min(ol, nl) + [4] * max(0, nl - ol))):
+            c.append({"kind": "update", "suite": sh.get("suite", "sha"), "n": num(sh.get("n", 0)), "ui": num(sh.get("update_index", 0)), "old": o, "new": w})
+        return ["\n".join("TRANSPORT %s=%s" % (k, _fmt(v)) for k, v in x.items()) for x in c]
+    if sh.get("contract") in ("sign", "verify", "bitflip"):
+        L = sh.get("L", 0)
+        off = sh.get("msg_len_offset", 0)
+        msgs = [[7 + i] * ((i + off) % 3) for i in range(L)]
+        hs = sh.get("header_shape", 0)
+        hdr = "None" if hs == 0 else "Some([%s])" % ", ".join(str(9 + j) for j in range(max(0, hs - 1)))
+        x = {"kind": "sigflow", "suite": sh.get("suite", "sha"), "msgs": "[" + ", ".join(_fmt(m) for m in msgs) + "]", "hdr": hdr, "msgs_none": sh.get("msgs_none", "false")}
+        return ["\n".join("TRANSPORT %s=%s" % (k, v if isinstance(v, str) else _fmt(v)) for k, v in x.items())]
     if not ent or spec.replay != "op":
         return []
     base = {"kind": "op", "entry": ent, "suite": sh.get("suite", "sha"), "pk": 5,
